@@ -236,6 +236,37 @@ func (b *sb) contended() {
 	core.Count("contended:" + holder)
 }
 
+// midBlock: direction d has delivered HEADERS (or, from the server, PUSH_PROMISE) without END_HEADERS,
+// possibly further CONTINUATION fragments, and its endpoint then stays silent: the header block is
+// open. The relay's reader of that direction has only buffered the fragments and waits for the next
+// frame - in its select, like between any two frames.
+func (b *sb) midBlock(d string) {
+	sid := b.nextSid
+	b.nextSid += 2
+	if d == "s2c" {
+		sid = b.newStream()
+		b.settle()
+	}
+	if d == "s2c" && b.r.Bool() {
+		// x/net's Framer accepts no CONTINUATION after PUSH_PROMISE (it answers a connection error): the
+		// block stays open and the server silent
+		b.add("env deliver s2c frag : pushpromise-open %d %d", sid, 2*b.r.Range(1, 40))
+	} else {
+		b.add("env deliver %s frag : headers-open %d", d, sid)
+		for i := b.r.Range(0, 2); i > 0; i-- {
+			b.add("env deliver %s frag : cont %d", d, sid)
+		}
+		if b.r.Chance(1, 4) { // one block completed, a second one left open
+			b.add("env deliver %s own 1 : cont-end %d", d, sid)
+			b.toward(d, 1)
+			b.add("env deliver %s frag : headers-open %d", d, sid+200)
+		}
+	}
+	b.settle()
+	b.pause()
+	core.Count("midblock:" + d)
+}
+
 func (b *sb) unstall() {
 	if b.stalled {
 		b.pause()
@@ -345,6 +376,16 @@ func buildCase(r *core.Rand, state, ev string) []string {
 			b.midStream()
 		}
 		b.contended()
+	case "midblock-c2s":
+		if r.Chance(1, 3) {
+			b.midStream()
+		}
+		b.midBlock("c2s")
+	case "midblock-s2c":
+		if r.Chance(1, 3) {
+			b.midStream()
+		}
+		b.midBlock("s2c")
 	}
 	if r.Chance(1, 2) {
 		b.add("probe")
@@ -427,7 +468,7 @@ func f10cRace(k int) []string {
 // one waiting for it, then the blocked write fails (or the client goes away, or the stall just ends
 // after another terminating event). Small and systematic: each error path of each direct write is hit
 // with somebody waiting behind it.
-func destMuSweep(emit func([]string)) {
+func destMuSweep(tier string, emit func([]string)) {
 	holders := []string{"env deliver s2c direct : ping", "env deliver s2c direct : pong", "env deliver s2c direct : settings",
 		"env deliver s2c direct : settings-ack", "env deliver s2c direct : goaway", "env deliver s2c settings 0 : settings-iw 70000",
 		"env deliver c2s data 1 : data 1 10", "env deliver s2c own 1 : headers 2"}
@@ -445,7 +486,10 @@ func destMuSweep(emit func([]string)) {
 			if h[:15] == "env deliver s2c" && h[16:19] != "own" && w[:15] == "env deliver s2c" {
 				continue // the s2c reader is the holder: it reads no further s2c frame
 			}
-			for _, e := range ends {
+			for ei, e := range ends {
+				if tier != "thorough" && ei > 0 {
+					break // quick: the blocked write fails (the error path of every direct write); thorough: every end
+				}
 				ops := []string{"start", "env deliver c2s own 1 : headers 1", "settle 0 1", "env stall s2c", h, "settle - -", w, "settle - -"}
 				ops = append(ops, e...)
 				emit(append(ops, "finish"))
@@ -455,7 +499,8 @@ func destMuSweep(emit func([]string)) {
 	}
 }
 
-var states = []string{"idle", "mid", "zero-c2s", "zero-s2c", "long-c2s", "long-s2c", "full", "zero+full", "contended"}
+var states = []string{"idle", "mid", "zero-c2s", "zero-s2c", "long-c2s", "long-s2c", "full", "zero+full", "contended",
+	"midblock-c2s", "midblock-s2c"}
 
 func (P) Gen(r *core.Rand, tier string, emit func([]string)) {
 	rounds := 1
@@ -475,12 +520,12 @@ func (P) Gen(r *core.Rand, tier string, emit func([]string)) {
 			emit(early(r.Fork(), "first-settings-"+ev))
 		}
 	}
-	destMuSweep(emit)
+	destMuSweep(tier, emit)
 	if tier != "thorough" {
 		// a second, random half round
 		for _, st := range states {
 			for _, ev := range events {
-				if r.Chance(1, 2) {
+				if r.Chance(2, 5) {
 					emit(buildCase(r.Fork(), st, ev))
 				}
 			}
